@@ -11,6 +11,7 @@ pub mod c10;
 pub mod c11;
 pub mod c12;
 pub mod c13;
+pub mod c14;
 pub mod c15;
 pub mod c18;
 
@@ -27,6 +28,7 @@ pub fn all() -> Vec<&'static PropDef> {
         &c11::PROP,
         &c12::PROP,
         &c13::PROP,
+        &c14::PROP,
         &c15::PROP,
         &c18::PROP,
     ]
